@@ -38,7 +38,7 @@ from crosshair.statespace import CallAnalysis, RootNode, StateSpace, Verificatio
 from crosshair.tracers import COMPOSITE_TRACER
 from crosshair.util import IgnoreAttempt, UnexploredPath
 
-__all__ = ["Pre", "Skip", "build_guard", "explore", "Result", "realize", "SOLVER"]
+__all__ = ["Pre", "Skip", "build_guard", "native", "explore", "Result", "realize", "SOLVER"]
 
 
 class Pre(Exception):
@@ -65,6 +65,23 @@ class build_guard:
     def __exit__(self, *a):
         signal.setitimer(signal.ITIMER_REAL, 0)
         signal.signal(signal.SIGALRM, self.old)
+        return False
+
+
+class native:
+    """Run a block natively (untraced) inside a harness: for sub-computations in which no symbolic
+    value takes part (e.g. parsing concrete strings with a table that is concrete on this path)."""
+
+    def __enter__(self):
+        from crosshair.tracers import is_tracing
+
+        self.cm = NoTracing() if is_tracing() else None
+        if self.cm:
+            self.cm.__enter__()
+
+    def __exit__(self, *a):
+        if self.cm:
+            return self.cm.__exit__(*a)
         return False
 
 
